@@ -87,16 +87,24 @@ Section Inst.
     && match lbp_of E K Doc.else_tok with Some l => l <=? 0 | None => false end
     && match lbp_of E K Doc.if_tok with Some l => l <=? 0 | None => false end.
 
-  Definition table_ok : bool := core_ok && chk_lowpost && chk_if.
+  Definition table_ok0 : bool := core_ok && chk_lowpost && chk_if.
+  (* normalizeArraySelector leaves exactly the empty and the one-token index unparsed *)
+  Definition chk_sel : bool := Nat.eqb (sel_raw_max K) 1.
+  Definition table_ok : bool := table_ok0 && chk_sel.
 
   Hypothesis OK : table_ok = true.
+
+  Lemma OK0 : table_ok0 = true.
+  Proof. pose proof OK as H. unfold table_ok in H. apply andb_prop in H. tauto. Qed.
+  Lemma I_selmax : sel_raw_max K = 1%nat.
+  Proof. pose proof OK as H. unfold table_ok in H. apply andb_prop in H. destruct H as (_ & H). now apply Nat.eqb_eq in H. Qed.
 
   Lemma ok_parts :
     forallb chk_binop binop_toks = true /\ forallb chk_prefix prefix_toks = true /\
     forallb (fun a => forallb (chk_order a) binop_toks) binop_toks = true /\
     chk_names = true /\ chk_struct = true.
   Proof.
-    pose proof OK as H. unfold table_ok in H.
+    pose proof OK0 as H. unfold table_ok0 in H.
     apply andb_prop in H. destruct H as (H & _).
     apply andb_prop in H. destruct H as (H & _). unfold core_ok in H.
     apply andb_prop in H. destruct H as (H & _).
@@ -109,7 +117,7 @@ Section Inst.
 
   Lemma ok_stop : chk_stop = true.
   Proof.
-    pose proof OK as H. unfold table_ok in H.
+    pose proof OK0 as H. unfold table_ok0 in H.
     apply andb_prop in H. destruct H as (H & _).
     apply andb_prop in H. destruct H as (H & _). unfold core_ok in H.
     apply andb_prop in H. tauto.
@@ -117,12 +125,12 @@ Section Inst.
 
   Lemma ok_lowpost : chk_lowpost = true.
   Proof.
-    pose proof OK as H. unfold table_ok in H.
+    pose proof OK0 as H. unfold table_ok0 in H.
     apply andb_prop in H. destruct H as (H & _). apply andb_prop in H. tauto.
   Qed.
 
   Lemma ok_if : chk_if = true.
-  Proof. pose proof OK as H. unfold table_ok in H. apply andb_prop in H. tauto. Qed.
+  Proof. pose proof OK0 as H. unfold table_ok0 in H. apply andb_prop in H. tauto. Qed.
 
   Lemma level_of_in : forall n ls i x, Doc.level_of n ls i = Some x -> In n (concat (map fst ls)).
   Proof.
@@ -575,6 +583,21 @@ Section Inst.
     exact (instance_correct _ ts a Ec).
   Qed.
 
+  Lemma parse_one_ext : forall ts x, Doc.parse_ext ts = Some x -> m_parse_one E K nf ts = ROk (x, []).
+  Proof.
+    intros ts x H. unfold Doc.parse_ext in H.
+    destruct (Doc.parse ts) as [y|] eqn:Ep.
+    - inversion H; subst. now apply parse_one_doc.
+    - destruct (rev ts) as [|q re] eqn:Er; [discriminate|].
+      destruct (Doc.is_lowpost q) eqn:Eq; [|discriminate].
+      destruct (classify tok Doc.is_operand Doc.is_prefix Doc.is_binop Doc.is_postfix (rev re)) as [a|] eqn:Ec; [|discriminate].
+      destruct (Doc.no_assign a) eqn:En; [|discriminate]. inversion H; subst.
+      assert (Hts : ts = (rev re ++ [q])%list).
+      { rewrite <- (rev_involutive ts), Er. reflexivity. }
+      rewrite Hts. unfold m_parse_one, parse_one.
+      exact (inst_postfix _ (rev re) a q Ec En Eq).
+  Qed.
+
   Lemma seg_doc : forall ts o, Doc.seg ts = Some o -> parse_segment E K nf ts = ROk o.
   Proof.
     intros ts o H. unfold Doc.seg in H. unfold parse_segment. destruct ts as [|t r].
@@ -614,11 +637,12 @@ Section Inst.
   Proof.
     intros content s H. unfold Doc.selector in H. unfold norm_selector.
     destruct (length (filter is_colon (split_colon_tail content))) as [|[|n]].
-    - destruct (split_colon_tail content) as [|t1 [|t2 r]].
+    - rewrite I_selmax. destruct (split_colon_tail content) as [|t1 [|t2 r]].
       + now inversion H.
       + now inversion H.
-      + destruct (Doc.parse (t1 :: t2 :: r)) as [x|] eqn:Ep.
-        * inversion H; subst. now rewrite (parse_one_doc _ _ Ep).
+      + cbn [length Nat.leb].
+        destruct (Doc.parse_ext (t1 :: t2 :: r)) as [x|] eqn:Ep.
+        * inversion H; subst. now rewrite (parse_one_ext _ _ Ep).
         * destruct (Doc.block (t1 :: t2 :: r)) as [[|x1 [|x2 xs]]|] eqn:Eb; try discriminate.
           destruct (forallb Doc.is_operand (t1 :: t2 :: r)) eqn:Eo; [|discriminate].
           inversion H; subst.
